@@ -381,6 +381,83 @@ func ruleAddrDeps(c *Ctx, rule string) {
 			c.Bad(rule, fname(fn), name+" deps", w.pos(fn.Pos()), "result depends on {"+strings.Join(got, ", ")+"}, expected exactly {"+strings.Join(want[name], ", ")+"}")
 		}
 	}
+	// FingerprintAddr is a KEY: two addresses get the same fingerprint exactly when they are the
+	// same IP (4-byte and IPv4-mapped spelling being one). Dependence on the IP alone does not
+	// give that — packing the bytes into a fixed array makes a.b.c.d collide with aabb:ccdd::,
+	// To4() maps every IPv6 address to nil. Accepted canonical forms: IP.String() of the
+	// address's IP, or the bytes of IP.To16().
+	{
+		fn := w.Func("ipnet", "", "FingerprintAddr")
+		bad := ""
+		n := 0
+		var canon func(v ssa.Value, d int) (bool, string)
+		canon = func(v ssa.Value, d int) (bool, string) {
+			v = stripIface(w.resolveLoad(v))
+			if d > 4 {
+				return false, "too deep"
+			}
+			if k, isC := v.(*ssa.Const); isC {
+				if k.Value != nil && k.Value.ExactString() == `""` {
+					return true, ""
+				}
+				return false, "a constant"
+			}
+			isIPField := func(x ssa.Value) bool {
+				_, f, ok := fieldLoad(stripIface(w.resolveLoad(x)))
+				if !ok {
+					if p, isP := stripIface(w.resolveLoad(x)).(*ssa.Parameter); isP && d > 0 {
+						_ = p
+						return true // the helper's own parameter: judged at the call (below)
+					}
+				}
+				return ok && f.Name() == "IP"
+			}
+			switch x := v.(type) {
+			case *ssa.Phi:
+				for _, e := range x.Edges {
+					if ok, why := canon(e, d+1); !ok {
+						return false, why
+					}
+				}
+				return true, ""
+			case *ssa.Call:
+				switch stdCallee(&x.Call) {
+				case "(net.IP).String":
+					if isIPField(x.Call.Args[0]) {
+						return true, ""
+					}
+					return false, "String() of a transformed address"
+				}
+				if h := x.Call.StaticCallee(); h != nil && w.IsMod[h] && len(h.Blocks) > 0 && len(x.Call.Args) == 1 && isIPField(x.Call.Args[0]) {
+					for _, r := range returnsOf(h) {
+						if ok, why := canon(r.Results[0], d+1); !ok {
+							return false, why
+						}
+					}
+					return true, ""
+				}
+				return false, "the result of " + w.desc(v)
+			case *ssa.Convert:
+				// string(ip.To16())
+				if c2, _ := callOf(stripIface(w.resolveLoad(x.X))); c2 != nil && stdCallee(&c2.Call) == "(net.IP).To16" && isIPField(c2.Call.Args[0]) {
+					return true, ""
+				}
+				return false, "a string made of raw bytes that are not the To16() form (" + w.desc(x.X) + ")"
+			}
+			return false, w.desc(v)
+		}
+		for _, r := range returnsOf(fn) {
+			n++
+			if ok, why := canon(r.Results[0], 0); !ok {
+				bad = "the fingerprint returned at " + w.instrPos(r) + " is " + why
+			}
+		}
+		if bad == "" && n > 0 {
+			c.OK(rule, fname(fn), "FingerprintAddr canonical", w.pos(fn.Pos()), "the key is IP.String() / the To16() bytes of the address's IP: one key per address")
+		} else {
+			c.Bad(rule, fname(fn), "FingerprintAddr canonical", w.pos(fn.Pos()), bad+": not a canonical form of the IP — different addresses can share a key (bytes packed into a fixed array make a.b.c.d collide with aabb:ccdd::; To4() is nil for every IPv6 address), so a permission for one peer admits another")
+		}
+	}
 	// AddrEqual must compare a with b (not a with a): each comparison pairs the two parameters
 	{
 		fn := w.Func("ipnet", "", "AddrEqual")
